@@ -1410,6 +1410,31 @@ pub fn run(ctx: &mut Ctx, r: &mut Rng, tier: &str) {
     let _ = std::fs::create_dir_all(TMP);
     ctx.op(P, "const_rev", "", &format!("ok {}", fb(uc::REV.value)));
 
+    // corpus: the crate's own fixture `Vec::<Link>::valid()` and the two probes of DESIGN.md §8
+    // (#3 disjoint / overlapping catenary sections, #4 a reference outside the network)
+    {
+        let base = Vec::<Link>::valid();
+        let mut rr = r.fork();
+        let mut muts: Vec<Mutant> = vec![];
+        net_mutants(&base, &mut muts);
+        link_mutants(&base, 1, &mut rr, &mut muts);
+        let c = |a: f64, e: f64| CatPowerLimit { offset_start: m(a), offset_end: m(e), power_limit: uc::W * 5.0e6, district_id: None };
+        let mut n3a = base.clone();
+        n3a[1].cat_power_limits = vec![c(0.0, 100.0), c(200.0, 300.0)];
+        muts.push(Mutant { name: "corpus_cat_disjoint".into(), expect: Some(true), net: n3a, at: 1 });
+        let mut n3b = base.clone();
+        n3b[1].cat_power_limits = vec![c(0.0, 100.0), c(50.0, 300.0)];
+        muts.push(Mutant { name: "corpus_cat_overlapping".into(), expect: Some(false), net: n3b, at: 1 });
+        let mut n4 = base.clone();
+        n4[1].idx_next = li(7);
+        muts.push(Mutant { name: "corpus_idx_next_7".into(), expect: Some(false), net: n4, at: 1 });
+        ctx.count("net.family.crate_fixture");
+        for mu in &muts {
+            let seen = run_case(ctx, &mu.name, mu.expect, &mu.net, mu.at, true, true, "crate_fixture");
+            legacy_case(ctx, &mut rr, &mu.name, &mu.net, &seen, true, mu.name == "unchanged", "crate_fixture");
+        }
+    }
+
     // full enumeration of single faults on small networks of every family
     let mut plans: Vec<GenOpts> = vec![
         GenOpts { family: "docs", n: 7, flips: 1, all_map: true, lockouts: false, grid: 1.0 },
@@ -1421,7 +1446,7 @@ pub fn run(ctx: &mut Ctx, r: &mut Rng, tier: &str) {
         GenOpts { family: "junctions", n: 6, flips: 2, all_map: false, lockouts: false, grid: 0.5 },
         GenOpts { family: "junctions", n: 4, flips: 0, all_map: true, lockouts: false, grid: 1.0 },
     ];
-    let extra = if thorough { 60 } else { 4 };
+    let extra = if thorough { 30 } else { 4 };
     for i in 0..extra {
         plans.push(GenOpts {
             family: *r.pick(&["line", "ring", "junctions", "junctions", "junctions"]),
@@ -1445,7 +1470,7 @@ pub fn run(ctx: &mut Ctx, r: &mut Rng, tier: &str) {
         let mut muts: Vec<Mutant> = vec![];
         net_mutants(&base, &mut muts);
         // every link on small networks, a sample on the large ones
-        let cap = if thorough { 16 } else { 4 };
+        let cap = if thorough { 6 } else { 4 };
         let ks: Vec<usize> = if base.len() - 1 <= cap {
             (1..base.len()).collect()
         } else {
